@@ -124,3 +124,16 @@ package lspcommon
 //@   ensures[C04,start-not-after-end] wfLoc(loc.StartLine, loc.StartColumn, loc.EndLine, loc.EndColumn) ==>
 //@        (result.Start.Line < result.End.Line || (result.Start.Line == result.End.Line && result.Start.Character <= result.End.Character))
 //@ end
+
+// ---- C08: when is a file's list of diagnostics "the same as before" (and therefore not published again)? ----
+// only when every diagnostic also shows the same entry-file note and the same number of related locations (and the same
+// ones: inner loop) - both are part of what the client displays (fix c6b8de8: they were not compared)
+//@ func IsSameErrList
+//@   props C08
+//@   sweep C01
+//@   ensures[same-means-the-same-length] result ==> len(oldErrList) == len(newErrList)
+//@   ensures[same-means-the-same-entry-file-note-and-related-count] result ==> forall(k, 0, len(oldErrList),
+//@        streq(oldErrList[k].EntryFile, newErrList[k].EntryFile) && len(oldErrList[k].RelateVec) == len(newErrList[k].RelateVec))
+//@   loop for:i<oldLen invariant 0 <= i && i <= oldLen && oldLen == len(oldErrList) && oldLen == len(newErrList) && forall(k, 0, i,
+//@        streq(oldErrList[k].EntryFile, newErrList[k].EntryFile) && len(oldErrList[k].RelateVec) == len(newErrList[k].RelateVec))
+//@ end
